@@ -284,6 +284,11 @@ func handleLaunchEvent(state *internalState, taskInfo mesos.TaskInfo) error {
 		makeSendDeviceEventFunc(state),
 		makeSendMessageFunc(state))
 
+	if myTask == nil {
+		// NewTask could not build a task from TaskInfo.Data and has already reported TASK_FAILED
+		return nil
+	}
+
 	err := myTask.Launch()
 
 	if err == nil {
